@@ -63,8 +63,31 @@ def frame_hash_of_solution(sol):
     return h.hexdigest()[:16]
 
 
+def inspect_solution(sol):
+    """Look at a Solution through its documented post-processing accessors (observing a result must not change the
+    device or mesh it shares with later simulations).  Accessors that raise in this environment are tolerated."""
+    import numpy as _np
+    pts = _np.array([[0.0, 0.0], [0.7, -0.4]])
+    calls = [lambda: sol.magnetic_moment(), lambda: sol.current_density, lambda: sol.vorticity,
+             lambda: sol.field_at_position(_np.array([[0.0, 0.0, 1.0], [0.5, 0.5, 2.0]])),
+             lambda: sol.field_at_position(pts, zs=1.0, vector=True), lambda: sol.vector_potential_at_position(pts, zs=0.5),
+             lambda: sol.interp_current_density(pts), lambda: sol.interp_order_parameter(pts),
+             lambda: sol.grid_current_density(grid_shape=(20, 20)), lambda: sol.boundary_phases(),
+             lambda: sol.current_through_path(_np.array([[-1.0, -1.0], [-1.0, 1.0]])),
+             lambda: sol.polygon_fluxoid(_np.array([[-1, -1], [1, -1], [1, 1], [-1, 1], [-1, -1.0]])),
+             lambda: setattr(sol, "solve_step", 0), lambda: setattr(sol, "solve_step", -1), lambda: sol.times, lambda: sol.dynamics.mean_voltage()]
+    n_ok = 0
+    for c in calls:
+        try:
+            c()
+            n_ok += 1
+        except Exception:      # noqa: BLE001 - several accessors raise under NumPy 2 on the unchanged tree
+            pass
+    return n_ok
+
+
 def build_device(tdgl, a):
-    dev = devices.make(tdgl, a.get("dev", "bar"), probes=2, mel=a.get("mel", 0.8))
+    dev = devices.make(tdgl, a.get("dev", "bar"), probes=2, mel=a.get("mel", 0.8), xi=a.get("xi", 1.0))
     probes = a.get("probes", 2)
     if probes != 2:
         pp = {0: None, 3: [(-1.5, 0.0), (0.0, 0.8), (1.5, 0.0)]}[probes]
@@ -136,7 +159,9 @@ def solve_frames(tdgl, a, tmp):
             # it); nothing of them may leak into the observed run
             pa = dict(a, **pre)
             pdev = dev.copy() if pre.get("on_copy") else dev
-            tdgl.solve(pdev, options(tdgl, pa, os.path.join(work, f"prelude{len(os.listdir(work))}.h5")), **drive(tdgl, pa))
+            psol = tdgl.solve(pdev, options(tdgl, pa, os.path.join(work, f"prelude{len(os.listdir(work))}.h5")), **drive(tdgl, pa))
+            if pre.get("inspect") and psol is not None:
+                inspect_solution(psol)
         pieces = a.get("split") or [a["solve_time"]]
         seed = None
         offset = 0
@@ -159,6 +184,11 @@ def solve_frames(tdgl, a, tmp):
                 runner_mod.DataHandler.close = w_close
             try:
                 sol = tdgl.solve(dev, o, seed_solution=seed, **kw)
+            except Exception as e:      # noqa: BLE001
+                # the observed run of a well-posed input did not complete: that is an observation about the code under
+                # test (other runs of the same physics complete), not a failure of the harness
+                return {"args": a, "frames": frames, "mesh": mesh or "none", "outcome": "raised:" + type(e).__name__,
+                        "monitor_launched": len(launched)}
             finally:
                 if path is None:
                     runner_mod.DataHandler.close = orig_close
@@ -201,7 +231,7 @@ def solve_frames(tdgl, a, tmp):
             after = frame_hash_of_solution(prev_seed)
             frames.append({"idx": -1, "step": -1, "time": "seed", "hash": before, "piece": n, "seed_before": True})
             frames.append({"idx": -1, "step": -1, "time": "seed", "hash": after, "piece": n, "seed_after": True})
-        return {"args": a, "frames": frames, "mesh": mesh, "monitor_launched": len(launched)}
+        return {"args": a, "frames": frames, "mesh": mesh, "monitor_launched": len(launched), "outcome": "returned"}
     finally:
         _runner_mod.subprocess.Popen = _real_popen
         tempfile.tempdir = old_tempdir
